@@ -1,18 +1,46 @@
-(* C09 — grammar text and grammar objects round-trip (partial: see DESIGN.md; the reader is tied to
-   the model by the K-read correspondence, the printer by K-print, the round trip itself is swept
-   on the implementation). *)
+(* C09 — grammar text and grammar objects round-trip.
+
+   What is proved, for ALL grammars of the readable shapes (every operator, any nesting, names,
+   types, actions, memo flag, both rule layouts):
+     the reference reader (Meta/Reader.v: the PEG rules of metagrammar.gram transcribed, tied to the
+     shipped GrammarParser by the K-read correspondences) applied to the token sequence of the full
+     rendering (Meta/PrintToks.v: Grammar/Printer.v's layout decisions, tied to str() and the
+     tokenizer by K-print and K-printtok) returns exactly [rt_grammar g] -- the grammar itself with
+     the parentheses/brackets the printer adds -- and [rt_grammar g] equals g once redundant
+     parentheses are stripped.  Nothing is dropped, merged or re-associated.
+   The lexer of action/annotation texts is a parameter [lex]; the hypothesis on each text
+   ([text_ok], decidable: Meta/Shape.v) says that the text is what the reader makes of its tokens. *)
 From Coq Require Import List String NArith Bool Arith.
-From Pegen Require Import Base.StrUtil Grammar.Ast Grammar.Printer.
+From Pegen Require Import Base.StrUtil Grammar.Ast Grammar.Printer
+  Meta.Reader Meta.PrintToks Meta.Canon Meta.TargetAtoms Meta.RoundTripDefs Meta.RoundTrip Meta.Strip Meta.Shape.
 Import ListNotations.
 Open Scope string_scope.
 
-Definition is_atom (i : item) : bool :=
-  match i with NameLeaf _ | StringLeaf _ | Group _ => true | _ => false end.
+Theorem C09_print_then_read :
+  forall (lex : string -> list gtok) (g : grammar),
+  grammar_ok_b lex g = true ->
+  read_grammar (read_fuel (grammar_toks lex g)) (grammar_toks lex g) = Ok (rt_grammar g) []
+  /\ strip_rules (rt_grammar g) = strip_rules g.
+Proof.
+  intros lex g H. destruct (grammar_ok_b_sound lex g H) as [Hne Hall]. split.
+  - exact (read_printed_grammar_default lex g Hne Hall).
+  - exact (strip_rt_grammar g).
+Qed.
+Print Assumptions C09_print_then_read.
 
-(* The printer never writes the postfix form `X?` for an X the reader's `atom '?'` alternative
-   could not read back as the operand: every optional prints as `[X]` unless X is an atom whose
-   rendering has no space. *)
-Theorem C09_partial_opt_rendering :
+(* the same for every sufficient amount of fuel (the reader's answer does not depend on it) *)
+Theorem C09_print_then_read_any_fuel :
+  forall lex g, grammar_ok_b lex g = true ->
+  forall f, 6 * List.length (grammar_toks lex g) + 10 <= f ->
+  read_grammar f (grammar_toks lex g) = Ok (rt_grammar g) [].
+Proof.
+  intros lex g H f Hf. destruct (grammar_ok_b_sound lex g H) as [Hne Hall].
+  exact (read_printed_grammar lex g Hne Hall f Hf).
+Qed.
+Print Assumptions C09_print_then_read_any_fuel.
+
+(* The printer writes the postfix optional only for atoms. *)
+Theorem C09_opt_rendering :
   forall simple j,
   item_str simple (Opt j) = "[" ++ item_str simple j ++ "]"
   \/ (is_atom j = true /\ has_space (item_str simple j) = false
@@ -22,4 +50,52 @@ Proof.
   destruct (has_space (item_str simple j)) eqn:Hs; cbn [orb]; [left; reflexivity|].
   destruct j; cbn [negb is_atom]; try (left; reflexivity); right; repeat split; reflexivity.
 Qed.
-Print Assumptions C09_partial_opt_rendering.
+Print Assumptions C09_opt_rendering.
+
+(* ---- the hypotheses are satisfiable: a grammar using every operator, both layouts, a typed memo
+   rule, typed and untyped names, nested brackets in an action, a wide repetition (parentheses are
+   added by the printer) and a wide optional (printed in brackets) ---- *)
+Definition ex_lex (s : string) : list gtok :=
+  if String.eqb s "T" then [TName "T"]
+  else if String.eqb s "f ( x , [y] )" then [TName "f"; TOp "("; TName "x"; TOp ","; TOp "["; TName "y"; TOp "]"; TOp ")"]
+  else if String.eqb s "{1 : z*}" then [TOp "{"; TNum "1"; TOp ":"; TName "z"; TOp "*"; TOp "}"]
+  else [].
+Definition pl (i : item) : nitem := NItem 0 None None i.
+Definition ex_grammar : grammar := {|
+  rules := [
+    {| rname := "start"; rtype := Some "T"; rmemo := true;
+       rrhs := Rhs 1 [Alt [NItem 2 (Some "x") (Some "T") (NameLeaf "a"); pl (Opt (NameLeaf "b"))]
+                          (Some {| atext := "f ( x , [y] )"; aused := ["x"]; aparses := true |});
+                      Alt [pl (Repeat0 3 (Group (Rhs 4 [Alt [pl (NameLeaf "c"); pl (NameLeaf "d")] None])));
+                           pl Cut; pl (NameLeaf "NEWLINE")] None] |};
+    {| rname := "other_rule_with_a_long_name"; rtype := None; rmemo := false;
+       rrhs := Rhs 5 [Alt [pl (Gather 6 (StringLeaf "','") (NameLeaf "element")); pl (PosLook (NameLeaf "b"));
+                           pl (NegLook (StringLeaf "'lit'")); pl (Forced (Group (Rhs 7 [Alt [pl (NameLeaf "p")] None; Alt [pl (NameLeaf "q")] None])))]
+                          (Some {| atext := "{1 : z*}"; aused := []; aparses := true |});
+                      Alt [pl (Opt (RhsItem (Rhs 8 [Alt [pl (NameLeaf "d"); pl (NameLeaf "e")] None])));
+                           NItem 9 (Some "k") None (Repeat1 10 (NameLeaf "w"));
+                           pl (Opt (Group (Rhs 11 [Alt [pl (NameLeaf "u"); pl (NameLeaf "v")] None])))] None] |}
+  ];
+  metas := [] |}.
+
+Example C09_hypotheses_hold : grammar_ok_b ex_lex ex_grammar = true.
+Proof. vm_compute. reflexivity. Qed.
+Print Assumptions C09_hypotheses_hold.
+
+(* both layouts occur, parentheses and brackets are added, and the reader recovers the structure *)
+Example C09_example_layouts :
+  map (fun r => Nat.ltb (String.length (one_line r)) 88) (rules ex_grammar) = [true; false].
+Proof. vm_compute. reflexivity. Qed.
+Print Assumptions C09_example_layouts.
+Example C09_example_adds_parentheses :
+  grammar_eqb (rt_grammar ex_grammar) (canon_grammar ex_grammar) = false
+  /\ list_eqb rule_eqb (strip_rules (rt_grammar ex_grammar)) (strip_rules ex_grammar) = true.
+Proof. vm_compute. split; reflexivity. Qed.
+Print Assumptions C09_example_adds_parentheses.
+Example C09_example_reads :
+  match read_grammar (read_fuel (grammar_toks ex_lex ex_grammar)) (grammar_toks ex_lex ex_grammar) with
+  | Ok g [] => grammar_eqb g (rt_grammar ex_grammar)
+  | _ => false
+  end = true.
+Proof. vm_compute. reflexivity. Qed.
+Print Assumptions C09_example_reads.
